@@ -1,4 +1,10 @@
-import DswModel.Tie.RepairStubs
+import DswModel.Tie.NpLemmas
+import DswModel.Tie.RepairDefs
+import DswModel.Tie.SwVt
+import DswModel.Tie.OpDna
+import DswModel.Tie.GzPath
+import DswModel.Tie.SwRepairScan
+import DswModel.Tie.SwRepairTail
 /-!
 # Translation tie — `repair_dna` (dsw/spiderweb.py)
 
@@ -7,9 +13,87 @@ import DswModel.Tie.RepairStubs
 product, the check filter on both return paths, the sorted duplicate-free result and all four statistics —
 for every well-formed accessor of order `k` (`4^k` rows), every start vertex, every ACGT strand at least one
 window long, with or without a (non-empty) check, both `has_indel` settings and every heap limit.
+
+Structure: `SwRepairLib` (loops that may raise, the new primitives, sorting), `SwRepairScan` (the `while` loop
+is `scan`), `SwRepairFrag` (the three nested fragment loops are `fragFold`), `SwRepairTail` (count, fallback,
+product, check filter, sorted result are `repairTail`); here the set initialisation (`k7`) and the top level.
 -/
 namespace Dsw.Tie
-open Dsw Dsw.Py Dsw.Tie.Stub
+open Dsw Dsw.Py
+
+namespace Repair
+
+/-- `[set() for _ in range(n)]`. -/
+theorem empty_sets (n : Nat) :
+    (bnd (pyRange1 (.int (n : Int))) fun t => pyMap (fun _ => .ok (.set [])) t) =
+      .ok (.list (List.replicate n (.set []))) := by
+  rw [pyRange1_nat, bnd_ok,
+    pyMap_list_map (f := fun _ => Except.ok (PV.set [])) (g := fun _ => PV.set []) (fun _ _ => rfl)]
+  simp [List.map_const']
+
+/-- glue: a simulated loop followed by a continuation that returns; the continuation may use the model outcome. -/
+theorem seq_sim' {ε σ : Type} {Rel : σ → ε → Prop} {m : R σ} {r : R (Flow ε)} {k : ε → R (Flow ε)} {g : σ → RV}
+    (h : Sim Rel m r) (hk : ∀ s e, m = .ok s → Rel s e → k e = retR (g s)) :
+    seq r k = retR (m.bind g) := by
+  cases m with
+  | error err => rw [show r = .error err from h]; rfl
+  | ok s =>
+    obtain ⟨e', rfl, hr⟩ := h
+    exact hk s e' rfl hr
+
+/-- the set initialisation, the fragment collection and the output stage. -/
+theorem k7_spec (fuel : Nat) {P : Params} (ha : P.a.WF) (hpos : 0 < P.a.size) (hk : 1 ≤ P.k)
+    (hl : P.k ≤ P.dna.length) (hd : IsAcgt P.dna)
+    (hfuel : ∀ c, P.chk = some c → c ≠ [] ∧ 2 * c.length + 2 ≤ fuel) {st : Scan} {e : Env}
+    (hc : Const P e) (hv : ScanVars st e) (hi : SInv P st) :
+    Gen.repair_dna.k7 fuel e =
+      retR (((fragFold P.a P.k P.dna P.hasIndel st).bind (repairTail P.dna P.chk P.heap st)).map repResultPV) := by
+  obtain ⟨hloc, hvi, hq, hsplit, hchunks, hmarkers, hdet, hflag, hvis⟩ := hv
+  have hcl := hi.cnt.chunks_len
+  have hml := hi.cnt.markers_len
+  have hlen : (st.chunks.reverse.zip st.markers.reverse).length = st.detected := by
+    simp [List.length_zip, hcl, hml]
+  have hcm : ∀ cm ∈ st.chunks.reverse.zip st.markers.reverse,
+      cm.2.length ≤ P.k ∧ ∀ x ∈ cm.2, -(P.a.size : Int) ≤ x ∧ x < P.a.size := by
+    intro cm hcm
+    have hm := List.mem_reverse.mp (List.of_mem_zip hcm).2
+    refine ⟨hi.det.markers_le _ hm, fun x hx => ?_⟩
+    have := hi.markers_ok _ hm x hx
+    omega
+  have hbind : ((fragFold P.a P.k P.dna P.hasIndel st).bind (repairTail P.dna P.chk P.heap st)).map repResultPV =
+      ((st.chunks.reverse.zip st.markers.reverse).foldlM (fragStep P.a P.k P.dna P.hasIndel) ([], st.visited)).bind
+        fun fv => (repairTail P.dna P.chk P.heap st fv).map repResultPV := by
+    rw [fragFold_eq]
+    cases (st.chunks.reverse.zip st.markers.reverse).foldlM (fragStep P.a P.k P.dna P.hasIndel) ([], st.visited) <;> rfl
+  have hA : ∀ e0, OuterRel P (.list (st.splits.reverse.map .str), .int (st.detected : Int), .bool false)
+        (st.chunks.reverse.zip st.markers.reverse).length 0 ([], st.visited) e0 →
+      seq (forLoop (Gen.repair_dna.for2_body fuel)
+          (enumFrom 0 ((st.chunks.reverse.zip st.markers.reverse).map cmPV)) e0) (Gen.repair_dna.k6 fuel) =
+        retR (((fragFold P.a P.k P.dna P.hasIndel st).bind (repairTail P.dna P.chk P.heap st)).map repResultPV) := by
+    intro e0 h0
+    rw [hbind]
+    refine seq_sim' (for2_loop fuel ha _ hcm st.visited e0 h0) ?_
+    rintro fv e' hfv ⟨hc', ⟨hk1, hk2, hk3⟩, hfl, hrfs, hvis'⟩
+    rw [← fragFold_eq] at hfv
+    obtain ⟨fv', hfv', hacgt⟩ := fragFold_total P.a P.k P.dna P.hasIndel st hk hl hi.det hi.cnt hi.acgt
+    rw [hfv] at hfv'
+    injection hfv' with hfv'
+    subst hfv'
+    have H : TailHyp P fuel st fv :=
+      ⟨hfuel, by rw [hfl, hlen, hi.splits_len], hd, hi.acgt.splits, hacgt⟩
+    refine k6_spec fuel H e' hc' hk1 ?_ hk2 hvis' hk3
+    rw [hrfs, Nat.sub_self]
+    simp
+  simp only [Gen.repair_dna.k7, hmarkers, pyLen_list, List.length_map, List.length_reverse, bnd_ok, empty_sets,
+    hchunks, pyZip_lists, zipPairs_map, pyEnumerate_list, pyIter_list]
+  apply hA
+  obtain ⟨hdna, hacc, hk', hchk, hind, hheap, hnuc⟩ := hc
+  refine ⟨⟨?_, ?_, ?_, ?_, ?_, ?_, ?_⟩, ⟨?_, ?_, ?_⟩, rfl, ?_, ?_⟩ <;>
+    first | rfl | assumption | (simp only [hlen, hml, Nat.sub_zero, List.map_nil, List.nil_append])
+
+end Repair
+
+open Repair
 
 theorem tie_repair_dna (a : Acc) (dna : List Char) (start k : Nat) (chk : Option (List Char)) (hasIndel : Bool)
     (heap fuel : Nat)
@@ -19,6 +103,29 @@ theorem tie_repair_dna (a : Acc) (dna : List Char) (start k : Nat) (chk : Option
     Gen.repair_dna fuel (cstr dna) (accPV a) (.int (start : Int)) (.int (k : Int)) (chkPV chk) (.bool hasIndel)
         (.int (heap : Int)) =
       (repairDna a dna start k chk hasIndel heap).map repResultPV := by
-  sorry
+  let P : Params := ⟨a, dna, k, chk, hasIndel, heap⟩
+  have hfuel : ∀ c, P.chk = some c → c ≠ [] ∧ 2 * c.length + 2 ≤ fuel := by
+    intro c hcc
+    have hcc' : chk = some c := hcc
+    refine ⟨hc c hcc', ?_⟩
+    rw [hcc'] at hf
+    simp only [Option.map_some, Option.getD_some] at hf
+    omega
+  have hA : ∀ e0 : Env, Const P e0 → ScanVars (Scan.init dna (start : Int)) e0 →
+      callResult (seq (whileLoop (Gen.repair_dna.while1_cond fuel) (Gen.repair_dna.while1_body fuel) fuel e0)
+          (Gen.repair_dna.k7 fuel)) =
+        (repairDna a dna start k chk hasIndel heap).map repResultPV := by
+    intro e0 hc0 hv0
+    obtain ⟨st', e', hscan, hloop, hc', hv', hi'⟩ :=
+      scan_loop (P := P) ha hsz hk hd fuel (dna.length + 1) (Scan.init dna (start : Int)) e0 hc0 hv0
+        (SInv.init P start hs) (show dna.length - 0 ≤ dna.length + 1 by omega) fuel (by omega)
+    rw [hloop, seq_norm, k7_spec fuel (P := P) ha (show 0 < a.size by omega) hk hl hd hfuel hc' hv' hi', callResult_retR,
+      repairDna_eq]
+    have hscan' : scan a k dna (dna.length + 1) (Scan.init dna (start : Int)) = some st' := hscan
+    rw [hscan']
+  simp only [Gen.repair_dna, Gen.repair_dna.body, cstr, pyLen_str, bnd_ok, neg_ones]
+  apply hA
+  · refine ⟨?_, ?_, ?_, ?_, ?_, ?_, ?_⟩ <;> rfl
+  · refine ⟨?_, ?_, ?_, ?_, ?_, ?_, ?_, ?_, ?_⟩ <;> rfl
 
 end Dsw.Tie
